@@ -70,6 +70,29 @@ pub mod serde_json {
             ensures mapv(*final(self)) == mapv(*old(self)).insert(k@, v)
         { unimplemented!() }
     }
+    // entry(k).or_insert_with(f): inserts f() only when k is absent (an existing value is kept)
+    pub struct Entry<'a> { pub m: &'a mut Map, pub ghost kv: Seq<char> }
+    pub uninterp spec fn key_chars<S>(k: S) -> Seq<char>;
+    pub broadcast proof fn axiom_key_chars_str(k: &str) ensures #[trigger] key_chars::<&str>(k) == k@ { admit(); }
+    pub broadcast proof fn axiom_key_chars_string(k: std::string::String) ensures #[trigger] key_chars::<std::string::String>(k) == k@ { admit(); }
+    impl Map {
+        #[verifier::external_body]
+        pub fn entry<'a, S>(&'a mut self, k: S) -> (e: Entry<'a>)
+            ensures mapv(*e.m) == mapv(*old(self)), e.kv == key_chars::<S>(k), mapv(*final(self)) == mapv(*final(e.m)),
+        { unimplemented!() }
+    }
+    impl<'a> Entry<'a> {
+        #[verifier::external_body]
+        pub fn or_insert_with<F: FnOnce() -> Value>(self, f: F) -> (r: &'a mut Value)
+            ensures mapv(*old(self.m)).contains_key(self.kv) ==> mapv(*final(self.m)) == mapv(*old(self.m)),
+                !mapv(*old(self.m)).contains_key(self.kv) ==> exists|v: Value| call_ensures(f, (), v) && mapv(*final(self.m)) == mapv(*old(self.m)).insert(self.kv, v),
+        { unimplemented!() }
+        #[verifier::external_body]
+        pub fn or_insert(self, v: Value) -> (r: &'a mut Value)
+            ensures mapv(*old(self.m)).contains_key(self.kv) ==> mapv(*final(self.m)) == mapv(*old(self.m)),
+                !mapv(*old(self.m)).contains_key(self.kv) ==> mapv(*final(self.m)) == mapv(*old(self.m)).insert(self.kv, v),
+        { unimplemented!() }
+    }
     impl Default for Map {
         #[verifier::external_body]
         fn default() -> (r: Map) ensures mapv(r) == vstd::map::Map::<Seq<char>, Value>::empty() { unimplemented!() }
@@ -260,7 +283,7 @@ fn serve_loop(&mut self, store: &Store, recver: &mut FrameReceiver, Tracked(hx):
         assert("handler_id"@.len() != "frame_id"@.len());
     }
 //@@ loop_top: for mut output_frame in
-    broadcast use axiom_display_id, axiom_display_str;
+    broadcast use axiom_display_id, axiom_display_str, serde_json::axiom_key_chars_str, serde_json::axiom_key_chars_string;
     let ghost of0 = output_frame;
 //@@ header
 #[verifier::loop_isolation(false)]
